@@ -18,7 +18,7 @@ PLANS = {
     "C04": dict(engine=INO, mc=["MC_WatchSet"],
                 quick=[("wsexh", 196, "k=2"), ("wsexh", 900, "k=3"), ("wsrand", 200, ""), ("repoint", 60, ""), ("tlcws", 600, "k=3"), ("tlcwslag", 334, "k=3"), ("tlcwslag", 400, "k=4"), ("lag", 150, ""), ("endwatch", 100, ""), ("wlpark", 40, ""), ("reops", 60, "")],
                 thorough=[("wsexh", 196, "k=2"), ("wsexh", 2744, "k=3"), ("wsexh", 38416, "k=4"), ("wsrand", 6000, ""), ("repoint", 600, ""), ("tlcws", 100000, "k=4"), ("tlcwslag", 12000, "k=4"),
-                          ("lag", 3000, ""), ("endwatch", 2000, ""), ("wlpark", 400, ""), ("reops", 800, "")]),
+                          ("lag", 3000, ""), ("endwatch", 2000, ""), ("wlpark", 400, ""), ("reops", 800, ""), ("ovfend", 3, "")]),
     "C05": dict(engine=INO, mc=["MC_Sched", "MC_SchedLive"], also_lin=True,
                 quick=[("lag", 300, ""), ("close", 100, ""), ("stall", 40, ""), ("ovfstall", 1, "mode=calls"), ("ovfstall", 1, "mode=close"), ("readfault", 40, ""), ("recerr", 40, "")],
                 thorough=[("lag", 5000, ""), ("close", 2000, ""), ("stall", 600, ""), ("ovfstall", 12, ""), ("readfault", 600, ""), ("recerr", 600, "")]),
@@ -30,7 +30,7 @@ PLANS = {
                 thorough=[("spell", 4000, ""), ("burst", 300, "ks=17+240+2049"), ("rand", 3000, ""), ("repoint", 1000, ""), ("rootwatch", 60, ""), ("tlcev", 3000, "k=4"), ("tlcev", 8000, "k=5"), ("tlcevlag", 1500, "k=3"), ("tlcevlag", 8000, "k=4")]),
     "C09": dict(engine=INO, mc=["MC_WatchSet", "MC_WatchSet_ops", "MC_Events", "MC_Events_held"],
                 quick=[("lag", 200, ""), ("endwatch", 200, ""), ("rand", 150, ""), ("wsrand", 100, ""), ("repoint", 80, ""), ("tlcwslag", 334, "k=3"), ("tlcwslag", 300, "k=4"), ("wlpark", 40, ""), ("dselfskip", 30, ""), ("heldparent", 40, ""), ("reops", 80, ""), ("tlcevheld", 300, "k=4"), ("tlcevheldlag", 300, "k=4")],
-                thorough=[("lag", 4000, ""), ("endwatch", 4000, ""), ("rand", 3000, ""), ("wsrand", 2000, ""), ("repoint", 1000, ""), ("tlcwslag", 12000, "k=4"), ("wlpark", 400, ""), ("dselfskip", 300, ""), ("heldparent", 600, ""), ("reops", 1200, ""), ("tlcevheld", 1453, "k=4"), ("tlcevheld", 6000, "k=5"), ("tlcevheldlag", 7911, "k=4")]),
+                thorough=[("lag", 4000, ""), ("endwatch", 4000, ""), ("rand", 3000, ""), ("wsrand", 2000, ""), ("repoint", 1000, ""), ("tlcwslag", 12000, "k=4"), ("wlpark", 400, ""), ("dselfskip", 300, ""), ("heldparent", 600, ""), ("reops", 1200, ""), ("tlcevheld", 1453, "k=4"), ("tlcevheld", 6000, "k=5"), ("tlcevheldlag", 7911, "k=4"), ("ovfend", 3, "")]),
     "C10": dict(engine=INO, mc=["MC_Sched"], also_longadd=True,
                 quick=[("lag", 200, ""), ("rand", 100, ""), ("overflow", 1, "extra=6"), ("ovflate", 2, ""), ("ovfstall", 1, ""), ("readfault", 30, ""), ("recurse", 100, ""), ("recerr", 30, "")],
                 thorough=[("lag", 5000, ""), ("rand", 3000, ""), ("overflow", 3, "extra=1+6+4000"), ("ovflate", 12, ""), ("ovfstall", 6, ""), ("readfault", 600, ""), ("recurse", 2000, ""), ("recerr", 400, "")]),
@@ -38,8 +38,8 @@ PLANS = {
                 quick=[("moves", 300, ""), ("parmoves", 60, ""), ("multix", 20, ""), ("slowpair", 8, ""), ("tlcev", 367, "k=3"), ("tlcev", 300, "k=4"), ("tlcevlag", 400, "k=3"), ("tlcevlag", 300, "k=4")],
                 thorough=[("moves", 8000, ""), ("moves", 1000, "depth=80"), ("parmoves", 1500, ""), ("multix", 300, ""), ("slowpair", 48, ""), ("slowpair", 16, "ms=11000"), ("tlcev", 3000, "k=4"), ("tlcev", 8000, "k=5"), ("tlcevlag", 1500, "k=3"), ("tlcevlag", 8000, "k=4")]),
     "C12": dict(engine=INO, mc=["MC_WatchSet"], also_longadd=True,
-                quick=[("wsexh", 700, "k=3"), ("cycle", 6, "n=150"), ("wsrand", 150, ""), ("repoint", 60, ""), ("endwatch", 80, ""), ("tlcws", 600, "k=3"), ("tlcwslag", 334, "k=3"), ("tlcwslag", 300, "k=4"), ("recurse", 150, ""), ("tlcreclag", 400, "k=4")],
-                thorough=[("wsexh", 2744, "k=3"), ("wsexh", 12000, "k=4"), ("cycle", 50, "n=1000"), ("wsrand", 5000, ""), ("repoint", 600, ""), ("endwatch", 2000, ""), ("recurse", 2000, ""), ("tlcreclag", 7000, "k=4"), ("tlcwslag", 12000, "k=4")]),
+                quick=[("wsexh", 700, "k=3"), ("cycle", 6, "n=150"), ("wsrand", 150, ""), ("repoint", 60, ""), ("endwatch", 80, ""), ("tlcws", 600, "k=3"), ("tlcwslag", 334, "k=3"), ("tlcwslag", 300, "k=4"), ("recurse", 150, ""), ("tlcreclag", 400, "k=4"), ("ovfend", 1, "")],
+                thorough=[("wsexh", 2744, "k=3"), ("wsexh", 12000, "k=4"), ("cycle", 50, "n=1000"), ("wsrand", 5000, ""), ("repoint", 600, ""), ("endwatch", 2000, ""), ("recurse", 2000, ""), ("tlcreclag", 7000, "k=4"), ("tlcwslag", 12000, "k=4"), ("ovfend", 4, "")]),
     "C13": dict(engine=INO, mc=["MC_Sched"], also_lin=True,
                 quick=[("close", 200, ""), ("newclose", 3, "n=300"), ("lag", 60, ""), ("ovfstall", 1, "mode=close"), ("readfault", 40, "")],
                 thorough=[("close", 5000, ""), ("newclose", 10, "n=1000"), ("lag", 1500, ""), ("readfault", 600, ""), ("ovfstall", 6, "mode=close")]),
